@@ -15,6 +15,33 @@ func sigLens(t int) (int, int) {
 
 // pinDest pins the certificate of a keys-and-cert block starting at off: sigT<0 means a NULL certificate,
 // otherwise a KEY certificate with payload length 4+excess and the given types.  Returns the block length.
+// concreteShapes switches the shape builders from symbolic content (nd.Bytes + assumptions) to concrete content (zero
+// bytes + the pinned values written): used by sweeps that enumerate (cut point x method) pairs, where symbolic payload
+// bytes would only multiply paths.  A harness that sets it resets it with defer.
+var concreteShapes bool
+
+func shapeBuf(n int) []byte {
+	if concreteShapes {
+		return make([]byte, n)
+	}
+	return nd.Bytes(n)
+}
+
+// pinFlag fixes bit 0 of a flags byte (offline keys).
+func pinFlag(in []byte, i int, set bool) {
+	if concreteShapes {
+		if set {
+			in[i] |= 1
+		}
+		return
+	}
+	if set {
+		nd.Assume(in[i]&1 == 1)
+	} else {
+		nd.Assume(in[i]&1 == 0)
+	}
+}
+
 func pinDest(in []byte, off int, sigT, cryT, excess int) int {
 	c := off + 384
 	if sigT < 0 {
@@ -73,13 +100,13 @@ func (s ls2Shape) size() int {
 // build draws the input and pins the length-deciding bytes.  Returns the input and the encoding length.
 func (s ls2Shape) build() ([]byte, int) {
 	total := s.size()
-	in := nd.Bytes(total + s.trailing)
+	in := shapeBuf(total + s.trailing)
 	p := pinDest(in, 0, s.sigT, s.cryT, s.excess)
 	// published(4) expires(2) flags(2): only the OFFLINE_KEYS bit is pinned
 	if s.offline >= 0 {
-		nd.Assume(in[p+7]&1 == 1)
+		pinFlag(in, p+7, true)
 	} else {
-		nd.Assume(in[p+7]&1 == 0)
+		pinFlag(in, p+7, false)
 	}
 	p += 8
 	if s.offline >= 0 {
@@ -182,13 +209,13 @@ func (s metaShape) build() ([]byte, int) {
 		_, ds := sigLens(destSigType(s.sigT))
 		n += ds
 	}
-	in := nd.Bytes(n + s.trailing)
+	in := shapeBuf(n + s.trailing)
 	pinDest(in, 0, s.sigT, s.cryT, s.excess)
 	if s.offline >= 0 {
-		nd.Assume(in[hdr+7]&1 == 1)
+		pinFlag(in, hdr+7, true)
 		pin(in, off+4, byte(s.offline>>8), byte(s.offline))
 	} else {
-		nd.Assume(in[hdr+7]&1 == 0)
+		pinFlag(in, hdr+7, false)
 	}
 	pin(in, opt, byte(s.optSize>>8), byte(s.optSize))
 	pin(in, cnt, byte(len(s.propSizes)))
@@ -252,13 +279,13 @@ func (s encShape) build() ([]byte, int) {
 	} else {
 		n += ks
 	}
-	in := nd.Bytes(n + s.trailing)
+	in := shapeBuf(n + s.trailing)
 	pin(in, 0, byte(s.sigT>>8), byte(s.sigT))
 	if s.offline >= 0 {
-		nd.Assume(in[hdr+7]&1 == 1)
+		pinFlag(in, hdr+7, true)
 		pin(in, off+4, byte(s.offline>>8), byte(s.offline))
 	} else {
-		nd.Assume(in[hdr+7]&1 == 0)
+		pinFlag(in, hdr+7, false)
 	}
 	pin(in, il, byte(s.inner>>8), byte(s.inner))
 	return in, n
@@ -298,7 +325,7 @@ func (s lsShape) build() ([]byte, int) {
 	n += 256 + sp
 	cnt := n
 	n += 1 + 44*s.leases + ss
-	in := nd.Bytes(n + s.trailing)
+	in := shapeBuf(n + s.trailing)
 	pinDest(in, 0, s.sigT, s.cryT, s.excess)
 	pin(in, cnt, byte(s.leases))
 	return in, n
@@ -361,7 +388,7 @@ func (s riShape) build() ([]byte, int) {
 	n += 2 + s.optSize
 	_, ss := sigLens(destSigType(s.sigT))
 	n += ss
-	in := nd.Bytes(n + s.trailing)
+	in := shapeBuf(n + s.trailing)
 	pinDest(in, 0, s.sigT, s.cryT, s.excess)
 	pin(in, cnt, byte(len(s.addrs)))
 	for i, a := range s.addrs {
